@@ -242,3 +242,37 @@ func vhMoveSeconds(ttl string) int64 {
 	}
 	return n
 }
+
+// VH_C19_config_change: a clean run with one configuration followed by a clean run with another one
+// (retention numbers, storage policy name, or both changed; same cluster layout): afterwards every table
+// carries the TTL an uninterrupted first run with the second configuration gives it and the second storage
+// policy, and a third run with the second configuration issues no ALTER.
+func VH_C19_config_change() {
+	vrt.Unwind(400)
+	c1 := vhConfig(false)
+	c2 := c1
+	switch vrt.Choice("what-changes", 3) {
+	case 0:
+		c2.policy = "tiered_cold"
+		vrt.Assume(c1.policy != "")
+	case 1:
+		c2.drop = c1.drop + 1
+	default:
+		c2.policy = "tiered_cold"
+		c2.drop = c1.drop + 1
+	}
+	db := vhNewConn()
+	vrt.Assert(vhRun(db, c1) == nil, "first-run-succeeds")
+	vhConverged(db, c1)
+	vrt.Assert(vhRun(db, c2) == nil, "run-with-the-new-configuration-succeeds")
+	vhConverged(db, c2)
+	ref := vhNewConn()
+	vrt.Assert(vhRun(ref, c2) == nil, "reference-run-succeeds")
+	for _, t := range vhPolicyTables {
+		vrt.Assert(db.ttl[t] == ref.ttl[t], "table-ttl-is-the-new-configurations")
+	}
+	n := db.alters
+	vrt.Assert(vhRun(db, c2) == nil, "third-run-succeeds")
+	vrt.Assert(db.alters == n, "re-run-with-the-new-configuration-issues-no-alter")
+	vrt.Reach("end")
+}
